@@ -87,8 +87,40 @@ pub fn check(hist: &History, cfg: &HybCfg) -> Vec<Complaint> {
                                 && !std::ptr::eq(l0, l)
                                 && l0.invoke < r2
                                 && l0.resp.map(|r| r > w2.invoke).unwrap_or(true)
-                                && matches!(&l0.res, LookupRes::Hit { ver: v0, source, .. } if v0 == ver && *source == 2)
+                                // served asynchronously: from the device, or from the write queue
+                                && matches!(&l0.res, LookupRes::Hit { ver: v0, source, .. } if v0 == ver && (*source == 2 || l0.answered.map(|a| a > l0.invoke).unwrap_or(true)))
                         });
+                    // Attribution (thread granularity): the newer version had been inserted, a remove(k) was in
+                    // progress (its steps are: memory remove, write-queue remove, disk tombstone) and a lookup that
+                    // overlapped the remove found the key gone from memory but the *older* disk copy not yet
+                    // tombstoned: it returned that copy and cached it.
+                    let load_during_remove = matches!(w2.kind, WKind::Insert { .. } | WKind::FetchInsert { .. })
+                        && hist.writes.iter().any(|w3| {
+                            w3.kind == WKind::Remove
+                                && w3.key == *key
+                                && w3.invoke < w3.resp.unwrap_or(u64::MAX)
+                                && hist.lookups.iter().any(|l0| {
+                                    l0.key == *key
+                                        && l0.invoke < w3.resp.unwrap_or(u64::MAX)
+                                        && l0.resp.map(|r| r > w3.invoke).unwrap_or(true)
+                                        && matches!(&l0.res, LookupRes::Hit { ver: v0, source, .. } if v0 == ver && (*source == 2 || l0.answered.map(|a| a > l0.invoke).unwrap_or(true)))
+                                })
+                        });
+                    // Attribution (thread granularity, write-on-eviction): the newer version existed in memory only,
+                    // was unlinked by a capacity eviction and reached the write queue only after a lookup of the key
+                    // had begun: that lookup found the key in neither memory nor the write queue, took the older copy
+                    // from disk and cached it.
+                    let stale_eviction_in_transit = matches!(w2.kind, WKind::Insert { .. } | WKind::FetchInsert { .. })
+                        && !cfg.woi
+                        && hist.leaves.iter().any(|e| e.key == *key && e.ver == w2.ver && e.reason == 0)
+                        && {
+                            let hash = crate::memdrive::VHash { table: std::sync::Arc::new(cfg.hash_table.clone()) }.hash_of(*key);
+                            hist.lookups.iter().any(|l0| {
+                                l0.key == *key
+                                    && matches!(&l0.res, LookupRes::Hit { ver: v0, source, .. } if v0 == ver && (*source == 2 || l0.answered.map(|a| a > l0.invoke).unwrap_or(true)))
+                                    && hist.admissions.iter().any(|(h, t)| *h == hash && *t >= l0.invoke)
+                            })
+                        };
                     let tier = match source {
                         0 => "origin",
                         1 => "memory",
@@ -125,6 +157,10 @@ pub fn check(hist: &History, cfg: &HybCfg) -> Vec<Complaint> {
                                     "R.stale-gof-requeue"
                                 } else if load_during_insert {
                                     "R.stale-load-during-insert"
+                                } else if load_during_remove {
+                                    "R.stale-load-during-remove"
+                                } else if stale_eviction_in_transit {
+                                    "R.stale-eviction-in-transit"
                                 } else {
                                     "R.stale"
                                 },
@@ -163,7 +199,7 @@ pub fn check(hist: &History, cfg: &HybCfg) -> Vec<Complaint> {
                                         && !std::ptr::eq(l0, l)
                                         && l0.invoke < r2.max(w2.invoke + 1)
                                         && l0.resp.map(|r| r > w2.invoke).unwrap_or(true)
-                                        && matches!(&l0.res, LookupRes::Hit { ver: v0, source, .. } if v0 == ver && *source == 2)
+                                        && matches!(&l0.res, LookupRes::Hit { ver: v0, source, .. } if v0 == ver && (*source == 2 || (w2.invoke < r2 && l0.answered.map(|a| a > l0.invoke).unwrap_or(true))))
                                 });
                             // Same attribution for clear(): a lookup of the key overlapped the clear() call and
                             // came back with this version (from the write queue or an in-flight load), which
